@@ -55,9 +55,29 @@ class CountProxy:
 def keyfun(spec, flavour):
     if spec is None:
         return None
-    if flavour in ("async", "lambda-coro", "object"):
+    if flavour in ("async", "lambda-coro", "object", "awaitobj", "object-equal"):
         async def k(x):
             return apply_fn(spec, [x])
+        if flavour == "awaitobj":
+            class _Aw:                             # an awaitable that is no coroutine (like a Future)
+                def __init__(self, v):
+                    self.v = v
+
+                def __await__(self):
+                    return self.v
+                    yield
+            return lambda x: _Aw(apply_fn(spec, [x]))
+        if flavour == "object-equal":
+            class KE:                              # value-like callable objects: all equal, same hash, different behaviour
+                async def __call__(self, x):
+                    return apply_fn(spec, [x])
+
+                def __eq__(self, other):
+                    return type(other).__name__ == "KE"
+
+                def __hash__(self):
+                    return 3
+            return KE()
         if flavour == "lambda-coro":
             return lambda x: k(x)                  # a plain function handing out a coroutine
         if flavour == "object":
@@ -205,7 +225,10 @@ def fault_run(items, ops, where, k, exc):
                     obs.append(("stop",))
                 except BaseException as e:  # noqa
                     obs.append(("raise", e is exc, type(e).__name__))
-                    return
+                    if where != "key":
+                        return
+                    # a failing key does not end anything: the consumer may carry on, the item whose key failed is gone
+                    # (a source that failed is a different matter: a generator is finished by its own exception)
         drive(go())
         return obs
     return drive_ops("asl"), drive_ops("std")
@@ -302,14 +325,21 @@ def aspect_faults(rep, rng, n):
         oa, os_ = fault_run(items, ops, where, k, exc)
         rep.count(("fault", repr(items), tuple(ops), where, k, type(exc).__name__), True)
         bad = None
-        fired_std = os_ and os_[-1][0] == "raise"
+        fired_std = builtins.any(o[0] == "raise" for o in os_)
         if fired_std:
-            if not (oa and oa[-1][0] == "raise" and oa[-1][1]) or len(oa) != len(os_):
-                bad = "itertools.groupby raises the injected %s at operation %d; asyncstdlib: %r" % (type(exc).__name__, len(os_) - 1, oa[-2:])
-            elif not builtins.all(same_obs(x, y) for x, y in builtins.zip(oa[:-1], os_[:-1])):
-                bad = "observations before the fault differ: %r vs %r" % (oa, os_)
-        elif oa and oa[-1][0] == "raise" and not oa[-1][1]:
-            bad = "asyncstdlib raised a different exception: %r" % (oa[-1],)
+            if len(oa) != len(os_):
+                bad = "itertools.groupby: %r; asyncstdlib: %r" % (os_, oa)
+            else:
+                for i, (x, y) in enumerate(builtins.zip(oa, os_)):
+                    if y[0] == "raise":
+                        if not (x[0] == "raise" and x[1]):
+                            bad = "itertools.groupby raises the injected %s at operation %d; asyncstdlib: %r" % (type(exc).__name__, i, x)
+                            break
+                    elif x[0] == "raise" or not same_obs(x, y):
+                        bad = "observation %d differs (the key failed at its use %d and the consumer carried on): asyncstdlib %r, itertools %r" % (i, k, oa, os_)
+                        break
+        elif builtins.any(o[0] == "raise" and not o[1] for o in oa):
+            bad = "asyncstdlib raised a different exception: %r" % ([o for o in oa if o[0] == "raise"][:1],)
         if bad:
             fails += 1
             rep.violation("groupby:fault", {"items": repr(items), "ops": ops, "fault": [where, k, type(exc).__name__], "why": bad})
@@ -527,7 +557,7 @@ def run(tier, seed):
     fails = 0
     lens = {}
     for items, key, ops in cases:
-        flavour = rng.choice(["sync", "async", "lambda-coro", "object"])
+        flavour = rng.choice(["sync", "async", "lambda-coro", "object", "awaitobj", "object-equal"])
         obs, pulls, closes = run_impl(items, key, flavour, ops)
         adv_only = builtins.all(o[0] in ("adv", "grp", "drop") for o in ops)
         std = run_std(items, key, ops) if adv_only else None
